@@ -93,8 +93,28 @@ THIS_THREAD_ret THIS_THREAD(void) { return (THIS_THREAD_ret)G_thread; }
 void RETIRE(RETIRE_a0 self, RETIRE_a1 p, RETIRE_a2 size RETIRE_EXTRA) { G_nret++; }
 struct rcs { void *lock; uint64_t ver; };
 static uint8_t *G_dbp, *G_obj, *G_val, *G_cached0; static uint64_t *G_slot, *G_cip; static uint64_t G_childw, G_old; static _Bool G_head_seen; static unsigned G_aocs_calls; static int G_outcome = -1;
-static uint8_t G_up[LAY_LEAFUP_SIZE];
 uint64_t IN_K, IN_vlen; unsigned IN_depth;
+static uint8_t G_up[LAY_LEAFUP_SIZE]; static uint64_t G_prefix0;
+/* number of leading bytes on which a and b agree, at most lim */
+static unsigned shared_bytes(uint64_t a, uint64_t b, unsigned lim) { unsigned s = 0; for (unsigned i = 0; i < 8; i++) { if (i < lim && s == i && (uint8_t)(a >> (8 * i)) == (uint8_t)(b >> (8 * i))) s = i + 1; } return s; }
+/* C01 for a split: the slot now holds a well-formed N4 with prefix = the s shared bytes of K from depth on, exactly two children: `oldw` under byte `ob`, a leaf for K under K's byte */
+static void split_post2(uint8_t *np, uint8_t *lp, uint64_t neww, unsigned s_, uint8_t ob, uint64_t oldw) {
+  __CPROVER_assert(neww == adt_tag(np, T_I4), "split: the slot holds the node allocated by this step");
+  struct nview nn; nv_load(&nn, np, 1);
+  __CPROVER_assert(nv_wf_small(&nn) && nn.count == 2, "C01/C10 split: the new node is a well-formed N4 with exactly two children");
+  __CPROVER_assert(NV_PREFIX_LEN(&nn) == s_ && prefix_matches(nn.prefix, IN_depth, IN_K), "C01 split: its key prefix is exactly the bytes the two keys share from this depth on");
+  uint8_t kb = kbyte(IN_K, IN_depth + s_);
+  __CPROVER_assert(ob != kb && nv_child(&nn, ob) == oldw, "C01 split: the old subtree hangs under its own next key byte");
+  __CPROVER_assert(nv_child(&nn, kb) == adt_tag(lp, T_LEAF) && LEAF_KEY(lp) == IN_K && LEAF_VLEN(lp) == IN_vlen, "C01 split: the new key's leaf hangs under the new key's next byte, with the given value length");
+}
+static void split_post(uint64_t neww, unsigned s_, uint8_t ob, uint64_t oldw) {
+#ifdef FUNCPOST      /* the functional postcondition reads the new node and leaf: proved in the variant with short values (the long-value variant keeps the lock / ledger obligations) */
+  /* the new node is the last block allocated, the leaf the cached one or the first block allocated (pointers from the ledger; one branch per case so that each is a plain object) */
+  __CPROVER_assert(lg_allocs == (G_cached0 ? 1u : 2u), "split: allocates the node, and the leaf unless one was cached");
+  if (G_cached0 && lg_allocs == 1) split_post2(lg_alloc_p[0], G_cached0, neww, s_, ob, oldw);
+  else if (!G_cached0 && lg_allocs == 2) split_post2(lg_alloc_p[1], lg_alloc_p[0], neww, s_, ob, oldw);
+#endif
+}
 /* ---- the contract of add_or_choose_subtree (proved for the real bodies in proofs/olc/aocs.c), used in place of all four instantiations */
 static void maybe_close(struct rcs *s) { if (s->lock && nondet_bool()) { RLC(s->lock)--; if (LAY_IS_DEBUG || nondet_bool()) s->lock = 0; } }
 struct aocs_ret { uint64_t *cip; uint8_t engaged; };
@@ -155,7 +175,7 @@ static void head_(void *node_p, void *pcs_, void *ncs_, void *nip_p, void *depth
 #else
   G_obj = malloc(NLAY(POL, I256, SIZE)); __CPROVER_assume(G_obj != 0);                                  /* only the header and the key prefix are touched here */
   __CPROVER_assume(N_PREFIX_LEN(G_obj, 1) <= 7 && IN_depth + N_PREFIX_LEN(G_obj, 1) < 8);
-  G_old = adt_tag(G_obj, 1 + nondet_uint() % 4);
+  G_old = adt_tag(G_obj, 1 + nondet_uint() % 4); G_prefix0 = N_PREFIX(G_obj, 1);
 #endif
   *(uint64_t *)node_p = G_old;
   lock_init(0, G_dbp + NLAY(POL, DB, ROOTLOCK)); lock_init(1, malloc(LAY_LOCK_SIZE)); __CPROVER_assume(LK[1] != 0); lock_init(2, G_obj);
@@ -186,6 +206,9 @@ static void back_(void *node_p, void *pcs_, void *nip_p) {
 void harness(void) {
   TRY_INSERT_a0 db = malloc(sizeof(*db)); __CPROVER_assume(db != 0); G_dbp = (uint8_t *)db;
   IN_K = nondet_u64(); IN_vlen = nondet_u64(); W = nondet_u64(); __CPROVER_assume(IN_vlen <= (1ULL << 33));
+#ifdef FUNCPOST
+  IN_vlen = 1;                 /* a constant: the leaf is then an object of constant size (all lengths: aocs / leafmk jobs) */
+#endif
   G_val = malloc(IN_vlen); __CPROVER_assume(G_val != 0);
   uint64_t root = nondet_u64();
 #if KIND != 0
@@ -226,7 +249,9 @@ void harness(void) {
   if (engaged) {
     __CPROVER_assert(val == !exists, "single-threaded result at a leaf: false iff the key exists");
     if (exists) { __CPROVER_assert(*G_slot == G_old && cached1 == 0 && lg_allocs == 0 && (G_cached0 == 0 ? lg_frees == 0 : (lg_frees == 1 && lg_freed(G_cached0))), "key exists: nothing changes; a cached (never published) leaf is released"); VERIF_CANARY("exists reachable"); }
-    else { __CPROVER_assert((*G_slot & 7) == T_I4 && adt_known(*G_slot) && lg_allocated(adt_ptr(*G_slot)) && cached1 == 0 && lg_frees == 0, "leaf split: a new N4 takes the slot, the cached leaf's ownership moved into it, nothing freed"); VERIF_CANARY("leaf split reachable"); }
+    else { __CPROVER_assert((*G_slot & 7) == T_I4 && adt_known(*G_slot) && lg_allocated(adt_ptr(*G_slot)) && cached1 == 0 && lg_frees == 0, "leaf split: a new N4 takes the slot, the cached leaf's ownership moved into it, nothing freed");
+      { uint64_t ek = LEAF_KEY(G_obj); unsigned s_ = shared_bytes(ek >> (8 * IN_depth), IN_K >> (8 * IN_depth), 8 - IN_depth); split_post(*G_slot, s_, kbyte(ek, IN_depth + s_), G_old); }
+      VERIF_CANARY("leaf split reachable"); }
   } else { __CPROVER_assert(*G_slot == G_old, "restart: slot unchanged"); VERIF_CANARY("restart return reachable"); }
 #else
   if (G_aocs_calls == 1) {
@@ -234,6 +259,11 @@ void harness(void) {
     VERIF_CANARY("return after the step reachable");
   } else if (engaged) {
     __CPROVER_assert(val && (*G_slot & 7) == T_I4 && adt_known(*G_slot) && lg_allocated(adt_ptr(*G_slot)) && cached1 == 0 && lg_frees == 0, "prefix split: a new N4 takes the slot, the leaf's ownership moved into it, nothing freed");
+    { unsigned L0 = kp_len(G_prefix0), s_ = shared_bytes(G_prefix0, IN_K >> (8 * IN_depth), L0);
+      __CPROVER_assert(s_ < L0, "a prefix split happens only on a proper mismatch inside the prefix");
+      split_post(*G_slot, s_, kp_byte(G_prefix0, s_), G_old);
+      { uint64_t r_ = N_PREFIX(G_obj, 1); unsigned L1 = L0 - s_ - 1;
+        __CPROVER_assert(kp_len(r_) == L1 && ((r_ ^ (G_prefix0 >> (8 * (s_ + 1)))) & lowmask(L1)) == 0, "C01 prefix split: the old node keeps exactly the prefix bytes after the split byte"); } }
     VERIF_CANARY("prefix split reachable");
   } else { __CPROVER_assert(*G_slot == G_old, "restart: slot unchanged"); VERIF_CANARY("restart return reachable"); }
 #endif
